@@ -12,6 +12,7 @@ package buffered
 // provider, datastore accesses, enqueue calls) of a reference run.
 
 import (
+	"context"
 	"fmt"
 	"math/rand"
 	"runtime"
@@ -33,6 +34,8 @@ import (
 
 const (
 	vC14BfCloseBound = 3 * time.Second
+	// dsqueue.DefaultCloseTimeout: how long the queue waits for its final datastore writes before it aborts them
+	vC14BfQueueCloseTimeout = 10 * time.Second
 	vC14BfCloseHang  = 5 * time.Minute
 )
 
@@ -81,10 +84,14 @@ type vC14BfScn struct {
 	OpsEach int
 	Batch   int
 	Idle    time.Duration
+	// Stall: from the instant Close is invoked, every write to the queue's datastore hangs until its context ends
+	// (a wedged disk). The queue gives its final writes 10 s (dsqueue's close timeout), then aborts them and
+	// reports an error; the buffered provider's Close must still close the wrapped provider and end its worker.
+	Stall bool
 }
 
 func (s vC14BfScn) String() string {
-	return fmt.Sprintf("clients=%d ops=%d batch=%d idle-write=%v", s.Clients, s.OpsEach, s.Batch, s.Idle)
+	return fmt.Sprintf("clients=%d ops=%d batch=%d idle-write=%v stalled-store-at-close=%v", s.Clients, s.OpsEach, s.Batch, s.Idle, s.Stall)
 }
 
 type vC14BfRes struct {
@@ -93,6 +100,7 @@ type vC14BfRes struct {
 	CloseLabel string
 	Busy       string
 	CloseTook  time.Duration
+	Stalled    bool // the queue's final writes hung (stall class)
 }
 
 func vC14BfRun(t *testing.T, c *vh.Case, sc vC14BfScn, target int) *vC14BfRes {
@@ -115,6 +123,16 @@ func vC14BfRunInBubble(t *testing.T, c *vh.Case, sc vC14BfScn, target int) *vC14
 	store.J.Hook = func(e *vjds.Entry) error {
 		bd.Tick("ds", e.Op)
 		runtime.Gosched() // the queue library calls the datastore under its own locks
+		return nil
+	}
+	var stalled atomic.Bool
+	var stalledWrites atomic.Int64
+	store.J.CtxHook = func(ctx context.Context, e *vjds.Entry) error {
+		if stalled.Load() && e.IsWrite() {
+			stalledWrites.Add(1)
+			<-ctx.Done()
+			return ctx.Err()
+		}
 		return nil
 	}
 	p := New(fake, store, WithBatchSize(sc.Batch), WithIdleWriteTime(sc.Idle))
@@ -234,11 +252,21 @@ func vC14BfRunInBubble(t *testing.T, c *vh.Case, sc vC14BfScn, target int) *vC14
 			return 0, nil
 		}
 	}
+	stalled.Store(sc.Stall)
 	took, cerr := doClose("Close")
 	closeReturned.Store(true)
 	res.CloseTook = took
 	callsAtClose := fake.queued.Load()
-	c.Check(took <= vC14BfCloseBound, "close-returns-in-bound", "%sClose took %v (bound %v), returned %v (%s; closed at event #%d %q)", tag, took, vC14BfCloseBound, cerr, sc, res.CloseIdx, res.CloseLabel)
+	closeBound := vC14BfCloseBound
+	if n := stalledWrites.Load(); n > 0 {
+		closeBound += vC14BfQueueCloseTimeout // the queue's own, documented allowance for its final writes
+		c.Obs("closes_with_final_writes_stalled", 1)
+		res.Stalled = true
+		if cerr != nil {
+			c.Obs("closes_reporting_unwritten_items", 1)
+		}
+	}
+	c.Check(took <= closeBound, "close-returns-in-bound", "%sClose took %v (bound %v), returned %v (%s; closed at event #%d %q)", tag, took, vC14BfCloseBound, cerr, sc, res.CloseIdx, res.CloseLabel)
 	c.Check(fake.closes.Load() == 1, "inner-closed-once", "%sthe wrapped provider's Close was called %d times by the first Close", tag, fake.closes.Load())
 	synctest.Wait()
 	cA := vc14.Owned()
@@ -290,11 +318,12 @@ func vC14BfRunInBubble(t *testing.T, c *vh.Case, sc vC14BfScn, target int) *vC14
 
 func TestVerif_C14_buffered(t *testing.T) {
 	vh.Run(t, vh.Spec{Prop: "C14", Unit: "buffered", Quick: 50, Thorough: 2000, CostMs: 40,
-		Rule:    "PRNG buffered provider over a fake wrapped provider (every call 1-150 ms of virtual time, Close 0-200 ms) and the journaling datastore (batch size 1-8, idle write time 0.1-5 s) with 1-3 clients enqueuing 2-8 StartProviding/ProvideOnce/StopProviding/Clear/RefreshSchedule; reference run counts boundary events (wrapped calls, datastore accesses, enqueues), re-runs Close immediately after construction, at 2 events on the worker's stack and 2 PRNG indices (thorough: all, <= 64); non-trivial = Close while the worker was inside a wrapped call",
+		Rule:    "PRNG buffered provider over a fake wrapped provider (every call 1-150 ms of virtual time, Close 0-200 ms) and the journaling datastore (batch size 1-8, idle write time 0.1-5 s) with 1-3 clients enqueuing 2-8 StartProviding/ProvideOnce/StopProviding/Clear/RefreshSchedule; every fourth case: from the instant Close is invoked every write to the datastore hangs until its context ends (the queue aborts its final writes after its 10 s close timeout and reports an error; Close gets those 10 s on top of its bound and must still close the wrapped provider and end the worker); reference run counts boundary events (wrapped calls, datastore accesses, enqueues), re-runs Close immediately after construction, at 2 events on the worker's stack and 2 PRNG indices (thorough: all, <= 64); non-trivial = Close while the worker was inside a wrapped call",
 		Clauses: []string{"baseline-clean", "close-returns-in-bound", "inner-closed-once", "no-goroutine-after-close", "close-again-returns", "api-no-panic", "no-goroutine-after-2min", "no-inner-call-after-close"}},
 		func(c *vh.Case) {
 			r := c.R
 			sc := vC14BfScn{Seed: r.Int63(), Clients: 1 + r.Intn(3), OpsEach: 2 + r.Intn(7), Batch: 1 + r.Intn(8), Idle: time.Duration(100+r.Intn(4900)) * time.Millisecond}
+			sc.Stall = c.Idx%4 == 3
 			c.Set("scenario", sc.String())
 			c.Set("seed", sc.Seed)
 			ref := vC14BfRun(t, c, sc, 0)
@@ -314,6 +343,9 @@ func TestVerif_C14_buffered(t *testing.T) {
 				c.Logf("close@%d: event #%d %q busy=%q took %v", tg, res.CloseIdx, res.CloseLabel, res.Busy, res.CloseTook)
 				if res.Busy != "" {
 					sigs = append(sigs, res.CloseLabel)
+				}
+				if res.Stalled {
+					sigs = append(sigs, "stalled")
 				}
 			}
 			if len(sigs) > 0 {
